@@ -1,2 +1,17 @@
 import FpgoVerif.Props.C20
 /-! `#print axioms` for every property theorem of C20; parsed by `check`. -/
+#print axioms FpgoVerif.C20.C20_compose
+#print axioms FpgoVerif.C20.C20_compose_total
+#print axioms FpgoVerif.C20.C20_pipe
+#print axioms FpgoVerif.C20.C20_pipe_total
+#print axioms FpgoVerif.C20.C20_compose_pipe_empty
+#print axioms FpgoVerif.C20.C20_compose_pipe_reverse
+#print axioms FpgoVerif.C20.C20_compose_regroup
+#print axioms FpgoVerif.C20.C20_pipe_regroup
+#print axioms FpgoVerif.C20.C20_compose_pipe_spec
+#print axioms FpgoVerif.C20.C20_makeVariadicParam
+#print axioms FpgoVerif.C20.C20_makeVariadicReturn
+#print axioms FpgoVerif.C20.C20_curryParam
+#print axioms FpgoVerif.C20.C20_trampoline
+#print axioms FpgoVerif.C20.C20_trampoline_first_stop
+#print axioms FpgoVerif.C20.C20_trampoline_runs_on
